@@ -276,3 +276,33 @@ def record_clamped(vc):
 # dt = int_factor/df, tchans = floor(obs_length/dt)), discharged again here
 from . import c05 as _C5
 contract('C20', 'frame_from_backend_params_uses_the_backend_parameters', functions=['setigen.frame:Frame.from_backend_params', 'setigen.frame:params_from_backend'])(_C5.from_backend_params)
+
+
+@contract('C20', 'record_reports_exact_integers_in_floating_point', functions=[BK + '.record', BK + '._header_populate_configuration'], mode='fp-relerr')
+def record_integers_fp(vc):
+    """The integer-valued quantities a recording reports (num_blocks, total sample count, PKTSTOP - PKTSTART) are computed with integer
+    arithmetic: executed in the rounding-error model they still equal n, n*spb*branches and n*spb exactly (a detour through the floating-point
+    observation length and int() would not)."""
+    from . import c04 as C4
+    npol = 1 + vc.choose(2, 'num_pols')
+    be, P = C4.build_backend(vc, npol, 8)
+    F = be.fields
+    N = Int('requested_blocks')
+    vc.assume(And(N >= 1, N <= 2 ** 30, P['sr'] >= 1000, P['sr'] <= 10 ** 12, P['nb'] <= 2 ** 24, P['taps'] <= 1024, F['samples_per_block'] <= 2 ** 30))
+    spb = F['samples_per_block']
+
+    class AtLoopEntry:
+        def havoc(self, interp, env, k, phase):
+            raise I.PathEnd()
+
+        def inv(self, interp, env, k):
+            hd = env.get('header_dict')
+            vc.cover('file-loop-entered')
+            vc.ensure('C20/record/fp/num_blocks-total-samples-and-PKTSTOP-are-exact-integers',
+                      exact(lambda: And(eq(F['num_blocks'], N), eq(F['total_obs_num_samples'], N * spb * P['nb']), eq(hd['PKTSTOP'], hd['PKTSTART'] + N * spb))))
+            raise I.PathEnd()
+    vc.interp.loop_specs[(BK + '.record', 2)] = AtLoopEntry()
+    vc.interp.open_hook = lambda path, m='r': L.FileW(path, m)
+    with fp(vc):
+        out = vc.run(lambda: vc.interp.call_key(BK + '.record', be, 'out', num_blocks=N, length_mode='num_blocks', verbose=False, load_template=False))
+    vc.ensure('C20/record/fp/exc/none-before-the-file-loop', out.ok)
